@@ -6,6 +6,7 @@
 
 #include "blfkit.h"
 #include "pathrun.h"
+#include <Vector/BLF/Exceptions.h>
 
 using namespace Vector::BLF;
 using kit::MemFile;
@@ -17,7 +18,9 @@ struct Item {
 };
 struct Scenario {
     std::string name;
-    long B = 0x20000, Q = 10, post = 0, nreads = -1, method = 0, level = 0, cut = -1, chop = 0;
+    long B = 0x20000, Q = 10, post = 0, nreads = -1, method = 0, level = 0, cut = -1, chop = 0, hdr0 = 0;
+    bool emptyFile = false;       // no complete container at all
+    std::vector<long> pends;      // file offset behind the stored payload of each container
     std::string tail = "eof";
     std::vector<Item> items;
     std::vector<long> conts;
@@ -48,6 +51,7 @@ static std::vector<Scenario> load_scenarios(const char * fn) {
                 else if (k == "LEVEL") s.level = atol(x.c_str());
                 else if (k == "CUT") s.cut = atol(x.c_str());
                 else if (k == "CHOP") s.chop = atol(x.c_str());
+                else if (k == "HDR0") s.hdr0 = atol(x.c_str());
                 else if (k == "TAIL") s.tail = x;
             }
         } else if (w[0] == "ITEM") {
@@ -126,16 +130,31 @@ static void build(Scenario & s, const std::string & dir, bool writeFile) {
     size_t off = 0;
     std::vector<long> conts = s.conts;
     if (conts.empty()) conts.push_back((long) s.stream.size());
+    s.pends.clear();
     for (long u : conts) {
         std::vector<uint8_t> c = kit::container_bytes(s.stream.data() + off, (size_t) u, (int) s.method, (int) s.level);
+        s.pends.push_back((long) f.size() + (long) kit::rd32(c, 8));      // header + stored payload = objectSize
         f.insert(f.end(), c.begin(), c.end());
         off += (size_t) u;
     }
+    if (s.hdr0)                    // the statistics header as open() writes it first: counters still zero
+        for (size_t i = 16; i < 144 && i < f.size(); i++) f[i] = 0;
     if (s.tail == "junk") {
         std::vector<uint8_t> j = kit::raw_object(1, 48, 48);     // a non-container object at container level
         f.insert(f.end(), j.begin(), j.end());
     }
-    if (s.cut >= 0 && (size_t) s.cut < f.size()) f.resize((size_t) s.cut);
+    if (s.cut >= 0 && (size_t) s.cut < f.size()) {
+        // truncated file: what the reader can see is the prefix of completely stored containers
+        f.resize((size_t) s.cut);
+        size_t k = 0;
+        long len = 0;
+        while (k < s.pends.size() && s.pends[k] <= s.cut) { len += conts[k]; k++; }
+        conts.resize(k);
+        s.pends.resize(k);
+        s.stream.resize((size_t) len);
+        s.conts = conts;
+        if (conts.empty()) s.conts.push_back(0), s.emptyFile = true;
+    }
     s.filebytes = f;
     s.filename = dir + "/" + s.name + ".blf";
     if (writeFile) kit::write_file(s.filename, f);     // only 'describe' writes; parallel replays just read
@@ -148,9 +167,12 @@ static std::string describe(Scenario & s) {
     o.puts("tail", s.tail);
     std::vector<long> conts = s.conts;
     if (conts.empty()) conts.push_back((long) s.stream.size());
+    if (s.emptyFile) conts.clear();
     o.raw("conts", jarr(conts.begin(), conts.end(), [](long u) {
         JObj c; c.put("usize", u).putb("ok", true); return c.str(); }));
     o.raw("cls", jarr(s.stream.begin(), s.stream.end(), [](uint8_t b) { return jstr(kit::byte_class(b)); }));
+    o.raw("pends", jarr(s.pends.begin(), s.pends.end(), [](long v) { return jint(v); }));
+    o.put("fsize", (long) s.filebytes.size());
     // descriptors: one per signature occurrence
     std::vector<std::string> objs;
     std::vector<long> expected;
@@ -371,6 +393,75 @@ int main(int argc, char ** argv) {
         }
         vsched::reset();
         st.print("rsession");
+        return 0;
+    }
+    if (mode == "trunc") {
+        // drv_rsession trunc <scenarios> <seed> [<from> <to>]: every truncation offset of every scenario's file
+        unsigned long seed = strtoul(argv[3], nullptr, 10);
+        std::mt19937_64 rng(seed);
+        long total = 0;
+        for (auto & sc : scs) {
+            long from = argc > 5 ? atol(argv[4]) : 0, to = argc > 5 ? atol(argv[5]) : (long) sc.filebytes.size();
+            if (to > (long) sc.filebytes.size()) to = (long) sc.filebytes.size();
+            Scenario cutsc = sc;
+            cutsc.nreads = -1;
+            cutsc.filename = dir + "/" + sc.name + "." + std::to_string((long) getpid()) + ".cut.blf";
+            for (long T = from; T <= to; T++) {
+                std::vector<uint8_t> b(sc.filebytes.begin(), sc.filebytes.begin() + T);
+                kit::write_file(cutsc.filename, b);
+                vsched::reset();
+                Session S;
+                S.file = new File;
+                S.file->m_uncompressedFile.setBufferSize(cutsc.B);
+                S.file->m_readWriteQueue.setBufferSize((uint32_t) cutsc.Q);
+                vsched::set_untracked(&S.file->m_compressedFile.m_mutex);
+                Session * sp = &S;
+                const Scenario * scp = &cutsc;
+                bool threw = false, closed = false, eofOk = true;
+                vsched::spawn([&, sp, scp] {
+                    File & f = *sp->file;
+                    try {
+                        f.open(scp->filename.c_str(), std::ios_base::in);
+                    } catch (Vector::BLF::Exception &) {
+                        threw = true;
+                    }
+                    if (!threw) {
+                        for (;;) {
+                            ObjectHeaderBase * o = f.read();
+                            if (!o) break;
+                            sp->delivered.push_back(get_id(o));
+                            delete o;
+                        }
+                        eofOk = f.eof() && !f.good();
+                    }
+                    f.close();
+                    closed = true;
+                });
+                long budget = 400000;
+                std::string verdict;
+                for (;;) {
+                    std::vector<int> run;
+                    for (int t = 0; t < vsched::nthreads(); t++)
+                        if (vsched::runnable(t)) run.push_back(t);
+                    if (run.empty()) { verdict = vsched::all_finished() ? "ok" : "deadlock"; break; }
+                    int t = run[rng() % run.size()];
+                    long burst = 1 + (long) (rng() % 32);
+                    for (long bb = 0; bb < burst && vsched::runnable(t); bb++) { vsched::step(t); if (--budget <= 0) break; }
+                    if (budget <= 0) { verdict = "livelock"; break; }
+                }
+                JObj o;
+                o.puts("name", sc.name).put("T", T).putb("throws", threw).puts("verdict", verdict).putb("closed", closed).putb("eofOk", eofOk);
+                o.raw("ids", jarr(S.delivered.begin(), S.delivered.end(), [](long v) { return jint(v); }));
+                printf("TRUNC %s\n", o.str().c_str());
+                total++;
+                finish_session(S, 100000);
+            }
+            unlink(cutsc.filename.c_str());
+        }
+        vsched::reset();
+        JObj o;
+        o.puts("driver", "rsession_trunc").put("paths", total);
+        printf("RESULT %s\n", o.str().c_str());
         return 0;
     }
     if (mode == "random") {
